@@ -426,6 +426,28 @@ Theorem C19_compress_preserves_dense :
 Proof. exact sv_of_ss_expand. Qed.
 Print Assumptions C19_compress_preserves_dense.
 
+(* removal of a range of non-zeros removes exactly the positions n..m *)
+Theorem C19_remove_range :
+  forall (n m : nat) (v : svec), (n <= m)%nat -> (m < length v)%nat ->
+    Permutation (sv_remove_range n m v ++ firstn (m + 1 - n) (skipn n v)) v /\
+    length (sv_remove_range n m v) = (length v - (m + 1 - n))%nat.
+Proof. exact sv_remove_range_spec. Qed.
+Print Assumptions C19_remove_range.
+
+(* assignment between semi-sparse vectors and re-dimensioning keep the values and the consistency of the index list *)
+Theorem C19_ss_assign_ss :
+  forall (rhs this : ssvec), ss_ok 0 rhs -> ss_ok 0 this ->
+    dv_eq (ss_val (ss_assign_ss 0 rhs this)) (ss_val rhs) /\ ss_ok 0 (ss_assign_ss 0 rhs this).
+Proof. exact (fun rhs this H1 H2 => conj (ss_assign_ss_val0 rhs this H1 H2) (ss_assign_ss_ok 0 rhs this H1 H2)). Qed.
+Print Assumptions C19_ss_assign_ss.
+
+Theorem C19_ss_redim :
+  forall (eps : Q) (n : nat) (s : ssvec) (i : nat), ss_ok eps s ->
+    ss_ok eps (ss_redim n s) /\ dv_get (ss_val (ss_redim n s)) i = (if Nat.ltb i n then dv_get (ss_val s) i else 0) /\
+    Permutation (ss_idx (ss_redim n s)) (filter (fun k => Nat.ltb k n) (ss_idx s)).
+Proof. exact (fun eps n s i H => conj (ss_redim_ok eps n s H) (conj (ss_redim_val n s i) (ss_redim_idx_perm n s))). Qed.
+Print Assumptions C19_ss_redim.
+
 (* x^T A over a set of sparse rows *)
 Theorem C19_rows_product :
   forall (n : nat) (x : dvec) (rows : list svec) (j : nat),
